@@ -66,7 +66,7 @@ TReset ==
   /\ local' = <<>> /\ data' = {} /\ hdrs' = {}
   /\ l1' = NoL1 /\ l1pend' = NoL1 /\ memFloor' = 0
   /\ fetched' = 0 /\ notify' = 0 /\ stuck' = FALSE
-  /\ hslot' = 0 /\ lslot' = -1 /\ pr' = IdlePr /\ pending' = 0 /\ keepMax' = 0
+  /\ hslot' = 0 /\ lslot' = 0 /\ pr' = IdlePr /\ pending' = 0 /\ keepMax' = 0
   /\ pc' = -1 /\ vw' = IdleVw /\ nViews' = 0 /\ restarts' = 0 /\ perr' = FALSE
   /\ l1sent' = FALSE /\ flags' = {}
 
@@ -88,7 +88,7 @@ TL1Call ==
 \* silent: l1HeadFeed.Send inside SetL1Head
 L1Send ==
   /\ l1pend # NoL1 /\ ~l1sent
-  /\ lslot' = IF lslot = -1 THEN l1pend.n ELSE lslot
+  /\ lslot' = IF lslot = 0 THEN l1pend.tag ELSE lslot
   /\ l1sent' = TRUE
   /\ UNCHANGED <<src, blk, nReorgs, fin, nL1, local, data, hdrs, l1, l1pend, memFloor, fetched, notify, stuck,
                  hslot, pr, pending, keepMax, pc, vw, nViews, restarts, perr, l, flags>>
@@ -184,7 +184,7 @@ TRestart ==
   /\ IsEvent("Restart")
   /\ restarts' = restarts + 1
   /\ fetched' = 0 /\ notify' = 0 /\ stuck' = FALSE
-  /\ hslot' = 0 /\ lslot' = -1 /\ pr' = IdlePr /\ pending' = 0
+  /\ hslot' = 0 /\ lslot' = 0 /\ pr' = IdlePr /\ pending' = 0
   /\ l1pend' = NoL1 /\ l1sent' = FALSE
   /\ memFloor' = SeedFloor /\ keepMax' = Oldest
   /\ pc' = -1 /\ vw' = IdleVw
